@@ -180,12 +180,27 @@ PROPS["C25"] = dict(
     explanation=(
         "libp2p_mplex::codec::Codec (Decoder + Encoder, via a cfg(libp2p_verif) mirror of the private frame types) on a "
         "real BytesMut: (1) decoding [header, len, payload] for a symbolic one-byte header (every flag incl. the invalid "
-        "7, stream ids 0..15) and symbolic payload, whole and at every split point, against the mplex flag table written "
-        "in the harness (kind, remote role, id, payload, mirrored local role, decoder back at Begin); (2) real-encoder -> "
-        "real-decoder round trip for every kind/role; (3) the 1 MiB bound decided from the length varint alone "
+        "7, stream ids 0..15) and symbolic payload, whole; and at every split point for each of the 8 flags with a concrete "
+        "header, against the mplex flag table written in the harness (kind, remote role, id, payload, mirrored local "
+        "role, decoder back at Begin); (2) the real encoder against the same wire specification (header varint from id "
+        "and LOCAL role, length, payload) for every kind/role, so encode -> spec bytes -> decode composes to the round "
+        "trip with the role mirrored; (3) the 1 MiB bound decided from the length varint alone "
         "(1 MiB+1 rejected without payload, exactly 1 MiB admitted); (4) hostile header/length/payload bytes never "
         "panic and never over-deliver."),
-    bounds="one-byte headers (stream id < 16); payload <= 1 (quick) / 3 (thorough) symbolic bytes; all split points of those frames; length prefixes {5, 1 MiB, 1 MiB+1, 2^32-1}; hostile: 2 + N <= 6 bytes; unwind 12",
-    outside="multi-byte header varints (stream ids >= 16) and split points inside a multi-byte varint; Multiplexed (substream bookkeeping, C24/C26)",
+    bounds="decode: one-byte headers (symbolic, stream id < 16, whole frames; concrete header per flag for split frames), payload <= 1 (quick) / 3 (thorough) symbolic bytes, all split points of those frames; encode: concrete kind/role/id (one- and two-byte headers) and concrete payload; length prefixes {5, 1 MiB, 1 MiB+1, 2^32-1}; hostile: 2 + N <= 6 bytes; unwind 12",
+    outside="encoder and decoder chained in one harness (exhausts 48 GB in CBMC; composed through the specification bytes instead); decoding multi-byte header varints (stream ids >= 16) and split points inside a multi-byte varint; Multiplexed (substream bookkeeping, C24/C26)",
     stubs=[TRACING, FMT], assumptions=[FORGET], hooks=["hook: libp2p_mplex::verif_hooks (FrameRepr mirror, CodecHook wrapping the real Codec)"],
+)
+
+PROPS["C13"] = dict(
+    group="swarm", files=["c13.rs"],
+    explanation=(
+        "libp2p_swarm::_address_translation on real Multiaddrs, one harness per (original shape, observed shape) with "
+        "all IP addresses (2^32 / 2^128) and ports symbolic: result is byte-identical to 'first component of observed "
+        "followed by every later component of original' exactly when both first components are IP/DNS, else None — "
+        "including originals with a second host component further down (must be preserved) and observed addresses "
+        "whose host is not the first component (must give None)."),
+    bounds="6 (quick) / 15 (thorough) shape pairs over ip4/ip6/dns/dns4/dns6/tcp/udp/quic-v1/memory/p2p-circuit, <= 4 components, DNS names from {x, y, yy}; unwind 40",
+    outside="shapes not enumerated (p2p components, longer addresses, arbitrary DNS names)",
+    stubs=[TRACING], assumptions=[FORGET], hooks=[],
 )
